@@ -639,7 +639,7 @@ def run(repo, task):
                       'cell by cell with the dictionary reference; families: label alignment (every tuple of label sets x unique/duplicated concat labels x axis x union x '
                       'index none/explicit/IndexAutoFactory x fill value; Series among the inputs; generator inputs; explicit aligned-axis labels), block layout (every pair of '
                       '(kinds, dtype-safe layout) of two 3-column frames x same/permuted/partial labels x axis), Series concat, overlay (every missing pattern of 2x2 inputs x '
-                      'row/column relation x kinds); non-trivial when the expected result holds >= 1 cell or a duplicate-label refusal is expected',
+                      'row/column relation x kinds), inputs without any label on the aligned axis in leading / middle / trailing positions (2-4 inputs); non-trivial when the expected result holds >= 1 cell or a duplicate-label refusal is expected',
                  bound=('quick' if tier == 'quick' else 'thorough') + ': <= 3 inputs, <= 3 labels per axis and input, label sets '
                        + repr(LABELSETS_Q if tier == 'quick' else LABELSETS_T) + ', kinds {int64,float64,bool,<U4,object,datetime64[D]}, fill in {nan,None,0,"F"}')
     for i, (specs, op) in enumerate(rep.shard(cases(tier))):
